@@ -1292,13 +1292,15 @@ func driveC04(c *h.Ctx) error {
 	c.Extra("bitmask_readers_repaired", g.masksOK)
 	t := &c04Tables{}
 	if c.Replay != nil {
-		if m, _ := c.Replay["case"].(map[string]any); m != nil && m["part"] == "interval" {
+		if m, _ := c.Replay["case"].(map[string]any); m != nil && (m["part"] == "interval" || m["part"] == "retained") {
 			c04IntervalLeg(c)
+			c04RetainedLeg(c)
 			return c04WriteCases(c, g, t)
 		}
 		return c04Replay(c, g, t)
 	}
 	c04IntervalLeg(c)
+	c04RetainedLeg(c)
 	// exhaustive small part: every pool value of every kind, bare and inside a structure
 	var singles []*c04Item
 	regTag := kmip.TagObjectGroup
@@ -1696,6 +1698,13 @@ func c04ShapeDocs(g *c04Gen) []c04Doc {
 		`<Attribute><Name type="TextString" value="a<b"/></Attribute>`, `<Attribute><Name type="TextString" value="&#x1;"/></Attribute>`, `<Attribute><Name type="TextString" value="&foo;"/></Attribute>`,
 		`<Attribute><Name type="TextString" value="&#x41;&#65;&lt;&gt;&amp;&apos;&quot;"/></Attribute>`, `<Attribute><Name type="TextString" value="a` + "\n" + `b` + "\t" + `c"/></Attribute>`,
 		`<!DOCTYPE x><Attribute/>`, `<Attribute><Name type="TextString" value="x"/></Attribute><Attribute>`,
+		// value elements written with a separate end tag (XML produced elsewhere), white space or a comment in between, first / last in their structure
+		`<Attribute><Name type="TextString" value="x"></Name><BatchCount type="Integer" value="7"/></Attribute>`,
+		`<Attribute><Name type="TextString" value="x">` + "\n" + `</Name><BatchCount type="Integer" value="7"></BatchCount></Attribute>`,
+		`<Attribute><Name type="TextString" value="x"/><BatchCount type="Integer" value="7">` + "\n  " + `</BatchCount></Attribute>`,
+		`<Attribute><Name type="TextString" value="x"><!-- c --></Name><BatchCount type="Integer" value="7"><!-- d --> </BatchCount></Attribute>`,
+		`<TemplateAttribute><Attribute><Name type="TextString" value="x">` + "\n" + `</Name></Attribute><BatchCount type="Integer" value="8">` + "\n" + `</BatchCount></TemplateAttribute>`,
+		`<TemplateAttribute>` + "\n " + `<Attribute>` + "\n  " + `<Name type="TextString" value="x">` + "\n  " + `</Name>` + "\n " + `</Attribute>` + "\n " + `<Attribute><Name type="TextString" value="y"> </Name></Attribute>` + "\n" + `</TemplateAttribute>`,
 	}
 	for _, x := range xmls {
 		for _, s := range scripts {
